@@ -155,7 +155,9 @@ ATOMS = ["int", "str", "bytes", "float", "bool", "None", "A", "B", "C.D", "objec
          "collections.abc.Hashable", "Any"]
 LIT_VALUES = ["'a|b'", "'['", "'x | y'", "'a[b]'", "'list[int]'", "'int'", "1", "-1", "0", "True", "None", "'|'", "']|['"]
 FWD = ["'A'", "'int | str'", "'list[A]'", "'B'", "'dict[str, A | None]'"]
-META = ["'x|y'", "5", "'a[b]'", "'list'", "-3", "None", "True", "'|'"]
+META = ["'x|y'", "5", "'a[b]'", "'list'", "-3", "None", "True", "'|'",
+        # metadata that is itself a type expression: every argument of Annotated is rewritten, not only the first
+        "str | None", "list[int]", "dict", "dict[str, int | float]", "tuple[int, ...] | None", "A | B"]
 
 
 class AGen:
@@ -303,7 +305,8 @@ FIXED_ANNOT = [
     "((a | b) | c) | d", "(a | (b | c)) | d", "a | ((b | c) | d)", "((a) | (b))", "int | (str | (bytes | None))",
     "(int | str) | (bytes | None)", "list[int | str] | None", "Literal['a|b', '['] | None", "Literal['a|b']", "Pattern[str]",
     "re.Pattern[str]", "Pattern", "list", "dict", "set", "tuple", "typing.List[int]", "Callable[[int | str, list], dict]",
-    "Callable[..., int | None]", "Annotated[int | None, 'x|y']", "'int | str'", "tuple[()]", "tuple[int, ...]",
+    "Callable[..., int | None]", "Annotated[int | None, 'x|y']", "Annotated[int, str | None]", "typing.Annotated[int, list[int]]",
+    "dict[str, Annotated[list[int], dict[str, int | float]]]", "Annotated[int, dict]", "t.Annotated[set[int], 'm', A | B]", "'int | str'", "tuple[()]", "tuple[int, ...]",
     "typing.Union[a | b, c]", "Union[int | str, None]", "Optional[int | str]", "list[(int | str)]", "x[a | b,]",
     "set[frozenset[int] | None]", "C.D | None", "typing.Optional[Callable[[A], re.Pattern[str]]]", "'A' | None",
     "dict[str, list[set[tuple[int | None, ...]]]]", "list[int] | typing.List[int]", "tuple[list, dict, set]",
